@@ -124,7 +124,7 @@ pub fn run(ctx: &mut Ctx) -> bool {
             blackbox::run_c16_many(ctx);
         }
         "C17" => {
-            ctx.rule = "Cases are UCI sessions: after the handshake, a position, then 0-10 lines the engine does not understand (empty, blanks / tabs / unicode spaces, random words, `uci` again, `stop`, `ponderhit`, `debug on`, wrong-case commands, 200-600 character lines, single words of 1-64 KiB whose tail at a power-of-two byte offset spells a command, lines of up to 30000 multi-byte characters, unicode), real commands written with surplus whitespace, `isready` in between (must always give `readyok`), the zero-allowance answer re-asked mid-way and after the last ignorable line (must be unchanged), a `go` with unknown tokens at key boundaries and a real 30-90 ms slice (must take the planned time and answer legally), then, in two thirds of the sessions, a timed go followed AT ONCE by `position <another position>`, an ignorable line and (a quarter of those) `stop` - lines that arrive while the engine is thinking: exactly one legal bestmove for the go, and afterwards the zero-allowance answer is the one of the other position; then one of eight endings: quit when idle, quit right after go, stdin closed when idle / right after go (pending bestmove must still be printed) / before `uci` / after a blank line / after an unterminated whitespace fragment / after an `isready` without line terminator (must still be answered); ignorable lines include words that merely start with a command name (`gobble`, `positional`, `quitting`); the process must end within slice + 1 s (+1.5 s grace), observed, not killed. Non-trivial = >= 3 ignorable lines or an end-of-input ending; distinct by session.".into();
+            ctx.rule = "Cases are UCI sessions: after the handshake, a position, then 0-10 lines the engine does not understand (empty, blanks / tabs / unicode spaces, random words, `uci` again, `stop`, `ponderhit`, `debug on`, wrong-case commands, 200-600 character lines, single words of 1-64 KiB whose tail at a power-of-two byte offset spells a command, lines of up to 30000 multi-byte characters, unicode), bursts of 300 to 300000 consecutive blank lines or of 260 to 70000 distinct unknown lines (two sessions in five), real commands written with surplus whitespace, `isready` in between (must always give `readyok`), the zero-allowance answer re-asked mid-way and after the last ignorable line (must be unchanged), a `go` with unknown tokens at key boundaries and a real 30-90 ms slice (must take the planned time and answer legally), then, in two thirds of the sessions, a timed go followed AT ONCE by `position <another position>`, an ignorable line and (a quarter of those) `stop` - lines that arrive while the engine is thinking: exactly one legal bestmove for the go, and afterwards the zero-allowance answer is the one of the other position; then one of eight endings: quit when idle, quit right after go, stdin closed when idle / right after go (pending bestmove must still be printed) / before `uci` / after a blank line / after an unterminated whitespace fragment / after an `isready` without line terminator (must still be answered); ignorable lines include words that merely start with a command name (`gobble`, `positional`, `quitting`); the process must end within slice + 1 s (+1.5 s grace), observed, not killed. Non-trivial = >= 3 ignorable lines or an end-of-input ending; distinct by session.".into();
             ctx.assumptions = vec!["outside the generated domain on purpose: invalid UTF-8, a bare `position`, non-numeric clock values, movestogo 0 (the statement does not list them as tolerated)".into()];
             blackbox::run_c17(ctx);
         }
